@@ -18,15 +18,50 @@ DT = {"float64": 1, "int64": 2, "int32": 3}
 KNOWN_EVAL = "evaluate-node-key-omits-function-and-arity"
 
 _GRIDS = []
+_POOLS = {}
+KIND = {"sd": 0, "intf": 1, "bg": 2}
+KNOWN_STALE = "composite-key-stale-after-Scalar.set_value"
 
 
 def grids():
+    """subdomain pool (4 grids).  The first two belong to a fractured md-grid whose interface
+    and boundary grids are the pools of the other two kinds of domain; the three kinds are
+    numbered by separate counters, so ids coincide across kinds."""
     if not _GRIDS:
-        for n in (2, 3, 1, 4):
+        mdg, _ = pp.mdg_library.square_with_orthogonal_fractures(
+            "cartesian", {"cell_size": 0.5}, [1])
+        _GRIDS.extend(mdg.subdomains())
+        for n in (1, 4):
             g = pp.CartGrid(np.array([n, 1]))
             g.compute_geometry()
             _GRIDS.append(g)
+        _POOLS["sd"] = _GRIDS
+        _POOLS["intf"] = list(mdg.interfaces())
+        _POOLS["bg"] = list(mdg.boundaries())
     return _GRIDS
+
+
+def dom(s, i):
+    grids()
+    pool = _POOLS[s.get("dk", "sd")]
+    return pool[i % len(pool)]
+
+
+def doms_of(s):
+    """the domains of a list-valued spec, without repetitions (small pools wrap around)"""
+    out = []
+    for i in s["doms"]:
+        g = dom(s, i)
+        if all(g is not h for h in out):
+            out.append(g)
+    return out
+
+
+def kind_of(domains):
+    if not domains:
+        return 3
+    d = domains[0]
+    return 1 if isinstance(d, pp.MortarGrid) else 2 if isinstance(d, pp.BoundaryGrid) else 0
 
 
 def fbits(x) -> int:
@@ -49,6 +84,7 @@ def idx_array(spec):
 class Builder:
     def __init__(self):
         self.pool = {}
+        self.later = []
 
     def pooled(self, s, make):
         oid = s.get("oid")
@@ -84,7 +120,13 @@ class Builder:
         k = s["k"]
         G = grids()
         if k == "scalar":
-            return pp.ad.Scalar(s["v"])
+            sc = pp.ad.Scalar(s["v"])
+            if "set" in s:          # history: key computed, then the value is changed in place
+                sc._key()
+                sc.set_value(s["set"])
+            if "set_later" in s:    # changed after the enclosing tree was built and hashed
+                self.later.append((sc, s["set_later"]))
+            return sc
         if k == "dense":
             return pp.ad.DenseArray(np.array(s["vals"], dtype=float).reshape(s["shape"]))
         if k == "sparse":
@@ -96,14 +138,14 @@ class Builder:
             return pp.ad.SparseArray(mat)
         if k == "tdda":
             base = self.pooled(s, lambda: pp.ad.TimeDependentDenseArray(
-                s["name"], [G[d] for d in s["doms"]]))
+                s["name"], doms_of(s)))
             return self.shift(s, base)
         if k == "var":
-            base = self.pooled(s, lambda: pp.ad.Variable(s["name"], {"cells": 1}, G[s["dom"]]))
+            base = self.pooled(s, lambda: pp.ad.Variable(s["name"], {"cells": 1}, dom(s, s["dom"])))
             return self.shift(s, base)
         if k == "mdvar":
             base = self.pooled(s, lambda: pp.ad.MixedDimensionalVariable(
-                [pp.ad.Variable(s["name"], {"cells": 1}, G[d]) for d in s["doms"]]))
+                [pp.ad.Variable(s["name"], {"cells": 1}, g) for g in doms_of(s)]))
             return self.shift(s, base)
         if k == "proj":
             return pp.ad.Projection(domain_indices=idx_array(s["dom"]),
@@ -171,19 +213,21 @@ def ser(op):
             raise ValueError(ty)
         return ["sparse", ty, [int(n) for n in m.shape], [ser_buf(p) for p in props]]
     if isinstance(op, A.TimeDependentDenseArray):
-        return ["tdda", op.name, [int(d.id) for d in op.domains], int(op._time_step_index)]
+        return ["tdda", op.name, kind_of(op.domains), [int(d.id) for d in op.domains],
+                int(op._time_step_index)]
     if isinstance(op, A.MixedDimensionalVariable):
-        return ["mdvar", op.name, [int(d.id) for d in op.domains],
+        return ["mdvar", op.name, kind_of(op.domains), [int(d.id) for d in op.domains],
                 int(op._time_step_index), int(op._iterate_index)]
     if isinstance(op, A.Variable):
-        return ["var", op.name, int(op.domain.id), int(op._time_step_index),
+        return ["var", op.name, kind_of([op.domain]), int(op.domain.id), int(op._time_step_index),
                 int(op._iterate_index)]
     if isinstance(op, A.Projection):
         return ser_proj(op)
     if isinstance(op, A.ProjectionList):
         return ["projlist", [ser_proj(c) for c in op.children]]
     if isinstance(op, A.MergedOperator):
-        return ["merged", op.name, [int(d.id) for d in op.domains], op._discretization_matrix_key,
+        return ["merged", op.name, kind_of(op.domains), [int(d.id) for d in op.domains],
+                op._discretization_matrix_key,
                 op._physics_key, op._inner_physics_key]
     if isinstance(op, A.Divergence):
         return ["div", int(op.dim), [int(d.id) for d in op.subdomains]]
@@ -259,18 +303,19 @@ def ctree(t):
     if k == "sparse":
         return f"(Leaf (LSparse {cstring(t[1])} {zl(t[2])} {clist(t[3], cbuf)}))"
     if k == "tdda":
-        return f"(Leaf (LTdda {cstring(t[1])} {zl(t[2])} {cz(t[3])}))"
+        return f"(Leaf (LTdda {cstring(t[1])} {cz(t[2])} {zl(t[3])} {cz(t[4])}))"
     if k == "var":
-        return f"(Leaf (LVar {cstring(t[1])} {cz(t[2])} {cz(t[3])} {cz(t[4])}))"
+        return f"(Leaf (LVar {cstring(t[1])} {cz(t[2])} {cz(t[3])} {cz(t[4])} {cz(t[5])}))"
     if k == "mdvar":
-        return f"(Leaf (LMdVar {cstring(t[1])} {zl(t[2])} {cz(t[3])} {cz(t[4])}))"
+        return f"(Leaf (LMdVar {cstring(t[1])} {cz(t[2])} {zl(t[3])} {cz(t[4])} {cz(t[5])}))"
     if k == "proj":
         return f"(Leaf (LProj {cproj(t)}))"
     if k == "projlist":
         return f"(Leaf (LProjList {clist(t[1], cproj)}))"
     if k == "merged":
-        ik = "None" if t[5] is None else f"(Some {cstring(t[5])})"
-        return (f"(Leaf (LMerged {cstring(t[1])} {zl(t[2])} {cstring(t[3])} {cstring(t[4])} {ik}))")
+        ik = "None" if t[6] is None else f"(Some {cstring(t[6])})"
+        return (f"(Leaf (LMerged {cstring(t[1])} {cz(t[2])} {zl(t[3])} {cstring(t[4])} "
+                f"{cstring(t[5])} {ik}))")
     if k == "div":
         return f"(Leaf (LDiv {cz(t[1])} {zl(t[2])}))"
     if k == "bin":
@@ -326,10 +371,11 @@ def gen_leaf(rng, allow_sparse=True):
                for (i, j) in sorted(rng.sample(cells, rng.randint(0, len(cells))))]
         return {"k": "sparse", "fmt": rng.choice(SPARSE_TYPES), "shape": [m, n], "entries": ent}
     if r < 0.50:
-        return {"k": "tdda", "name": rng.choice(NAMES),
+        return {"k": "tdda", "name": rng.choice(NAMES), "dk": rng.choice(["sd", "sd", "intf", "bg"]),
                 "doms": rng.sample(range(4), rng.randint(0, 2)), "t": rng.choice([0, 0, 1, 2])}
     if r < 0.72:
-        s = {"k": "var", "name": rng.choice(NAMES), "dom": rng.randrange(4)}
+        s = {"k": "var", "name": rng.choice(NAMES), "dom": rng.randrange(4),
+             "dk": rng.choice(["sd", "sd", "intf"])}
         sh = rng.random()
         if sh < 0.25:
             s["t"] = rng.choice([1, 1, 2])
@@ -497,6 +543,10 @@ def mutate_leaf(rng, s):
                 s["entries"] = sorted(s["entries"] + [[i, j, 1]])
             else:
                 s["entries"] = s["entries"][:-1]
+    elif k in ("tdda", "var", "mdvar") and rng.random() < 0.2:
+        # the KIND of domain only: the ids of the new domains coincide with the old ones
+        kinds = ["sd", "intf", "bg"] if k == "tdda" else ["sd", "intf"]
+        s["dk"] = rng.choice([x for x in kinds if x != s.get("dk", "sd")])
     elif k in ("tdda", "var", "mdvar"):
         r = rng.random()
         if r < 0.45:                     # time / iterate shift only
@@ -658,7 +708,15 @@ class C45(Prop):
                 yield {"kind": "big-index", "t1": {"k": "bin", "op": "matmul", "a": a, "b": ctx},
                        "t2": {"k": "bin", "op": "matmul", "a": b, "b": ctx}}
                 continue
-            if c < nbig + 12:
+            if nbig + 19 <= c < nbig + 21:
+                # known finding: a composite that was hashed keeps its key when a Scalar below it
+                # is changed with set_value (only the Scalar's own cached key is dropped)
+                x = {"k": "var", "name": "p", "dom": 0}
+                yield {"kind": "set-value-composite",
+                       "t1": {"k": "bin", "op": "mul", "a": {"k": "scalar", "v": 1.0, "set_later": 2.0}, "b": x},
+                       "t2": {"k": "bin", "op": "mul", "a": {"k": "scalar", "v": 2.0}, "b": x}}
+                continue
+            if c < nbig + 19:
                 # directed single-datum mutations of the leaf classes outside operators.py and
                 # of function nodes, inside a random context
                 biot = {"k": "merged", "cls": "BiotAd", "kw": "mechanics", "doms": [0, 1],
@@ -667,7 +725,14 @@ class C45(Prop):
                 dv = {"k": "div", "dim": 1, "doms": [0, 2]}
                 x = {"k": "var", "name": "p", "dom": 0}
                 y = {"k": "var", "name": "q", "dom": 1}
+                td = {"k": "tdda", "name": "src", "doms": [0], "dk": "sd"}
                 pairs = [
+                    (td, dict(td, dk="intf")), (td, dict(td, dk="bg")),
+                    (dict(td, dk="bg", doms=[1], t=1), dict(td, doms=[1], t=1)),
+                    (dict(x, dk="sd"), dict(x, dk="intf")),
+                    ({"k": "mdvar", "name": "p", "doms": [0]}, {"k": "mdvar", "name": "p", "doms": [0], "dk": "intf"}),
+                    ({"k": "scalar", "v": 2.0}, {"k": "scalar", "v": 1.0, "set": 2.0}),
+                    ({"k": "scalar", "v": 1.0}, {"k": "scalar", "v": 1.0, "set": 2.0}),
                     (biot, dict(biot, inner="temperature")), (biot, dict(biot, kw="flow")),
                     (biot, dict(biot, term="consistency")), (mp, dict(mp, cls="TpfaAd")),
                     (mp, dict(mp, doms=[2, 1])), (mp, dict(mp, term="bound_flux")),
@@ -761,10 +826,20 @@ class C45(Prop):
 
     def run_impl(self, case):
         b = Builder()
-        o1 = b.build(case["t1"])
+
+        def built(spec):
+            o = b.build(spec)
+            if b.later:     # history: hash the tree, then change scalar values in place
+                o._key()
+                for sc, v in b.later:
+                    sc.set_value(v)
+                b.later = []
+            return o
+
+        o1 = built(case["t1"])
         k1 = o1._key()
         h1 = hash(o1)
-        o2 = b.build(case["t2"])
+        o2 = built(case["t2"])
         k2 = o2._key()
         h2 = hash(o2)
         # keys are stable
@@ -793,6 +868,8 @@ class C45(Prop):
         return None
 
     def finding_key(self, case, res, why):
+        if case.get("kind") == "set-value-composite" and why.startswith("structurally identical"):
+            return KNOWN_STALE
         if why.startswith("different") and (has_eval(res["s1"]) or has_eval(res["s2"])):
             # attributable to the evaluate nodes only: everything else (all leaf data, all
             # operations, the order) coincides once function identity and arity are erased
@@ -803,6 +880,8 @@ class C45(Prop):
         return "identical-trees-different-keys"
 
     def coq_case(self, case, res):
+        if case.get("kind") == "set-value-composite":
+            return None     # the per-object key cache is not part of the model
         return (f"agree {ctree(res['s1'])} {ctree(res['s2'])} "
                 f"{cbool(res['key_eq'])} {cbool(res['hash_eq'])}")
 
